@@ -6,6 +6,22 @@ TECH = "bounded exhaustive enumeration (stateless explicit-state exploration of 
 
 # property -> (category, text, note, technique)
 CHECKS = {
+ "C02": ("model_checking",
+  "Bounded exhaustive exploration of the decoder on untrusted bytes: the whole R4 corpus with every truncation / single-bit flip / trailing garbage and all strings <= 2 (3) bytes, through streaming inflate under boundary schedules (0-/1-byte buffers, fast-path thresholds), uncompress/uncompress2, the Rust wrappers and header capture, every buffer in guard-paged arenas in both placements and state in a guard-paged garbage-filled allocator; a signal is attributed to the case by the explorer. Oracle: no crash/panic, documented status, cursors in bounds, bounded calls, progress.",
+  "Trusted: the harness; guard pages see every access beyond a buffer end/start but not overruns inside one allocation smaller than the allocator slack. Not covered: multi-fault corruptions, strings outside the corpus.",
+  TECH),
+ "C03": ("model_checking",
+  "Bounded exhaustive enumeration of byte strings (R4 corpus: all token programs <= 3 tokens, all complete codes on <= 5 symbols, extremes, faults; all wrappers; every truncation / bit flip / garbage suffix; all strings <= 2 (3) bytes) x all windowBits modes; verdict, output and consumed length compared with the reference decoder R2+R3, zlib-ng as tie-breaker.",
+  "Trusted: R2/R3/R4 (self-tested against zlib-ng). Three-way disagreements where zlib-ng sides with zlib-rs are reported in the evidence as model_divergence (currently 0).",
+  TECH),
+ "C04": ("model_checking",
+  "For every corpus stream (valid, invalid, truncated) the one-call run is the reference execution; all compositions of the input (<= 9/12 bytes), every single split, 1-byte pieces, boundary output rooms and all five flush values (uniform and at one call) must reproduce its output, verdict and consumed length. Decoder resume states are observed through hook H2 and the run is rejected as vacuous unless every resumable mode was entered.",
+  "Trusted: hook H2 (read-only), the harness. Not covered: more than one split on streams > 12 bytes, streams outside the corpus.",
+  "bounded exhaustive enumeration of call schedules, differential against the one-call execution"),
+ "C08": ("model_checking",
+  "Valid zlib/gzip streams (corpus + encoder-produced up to 200 KB) x all 255 alternative values of every header byte and of the last 12 bytes, every bit flip elsewhere (lattice on long streams) x schedules incl. 1-byte calls and 32767..32769-byte output rooms; whenever Z_STREAM_END is returned the consumed trailer must equal the R1 checksum/length of the bytes actually output and a FHCRC header must verify.",
+  "Trusted: R1. Corruptions of fields the format does not protect (MTIME/XFL/OS/name without FHCRC) are accepted by design and counted separately.",
+  TECH),
  "C01": ("model_checking",
   "Bounded exhaustive exploration of the real encoder+decoder: every (configuration x input x call schedule) of the tiny / shape / big families (all strings over small alphabets, boundary-forcing inputs for 512-byte windows and 127-symbol blocks, > 2 windows at 32 KiB; every single deviation from the default schedule: split position, flush kind, output room, parameter change, plus selected double deviations). Every stream is decoded by zlib-rs under three schedules and by the independent reference decoder R2+R3 and compared with the input.",
   "Trusted: reference decoder R2/R3 (cross-validated against zlib-ng at start-up), the harness. Not covered: inputs/configs/schedules outside the families.",
